@@ -5,7 +5,7 @@ s1=open('/verif/notes/design_s1.md').read()
 s21=open('/verif/notes/design_s21.md').read()
 # amend R16 row and the "not built" notes
 s21=s21.replace("| R16 *(stretch)* | closure conversion: `iter::from_fn(move \\|\\| BODY)` ⇒ a named struct holding the captured variables (types from the side-car, checked by rustc) with `fn next(&mut self)` whose body is `BODY` with captures prefixed by `self.` | would bring `find_words_ascii_space`, `break_apart`, `split_words` into reach | only with the fidelity guard; not prototyped |",
-"| R16 | closure conversion (**built**, `//@closure <ordinal> self=a,b :: <fn header>`): the body of the n-th closure of the function (`iter::from_fn(move \\|\\| BODY)`, `.filter(\\|x\\| BODY)`, `.find(\\|x\\| BODY)`) is verified as a method of a struct holding the captured variables: same tokens, captured identifiers prefixed by `self.` (field types come from the side-car and are checked by rustc); the enclosing function becomes the struct's constructor | brings `find_words_ascii_space` (U13), `split_words` (U14), `Word::break_apart` (U15) and the three closures of `find_words_unicode_break_properties` (U20) into reach | that `from_fn`/`collect` call `next` until `None` and keep the items in order is std behaviour (A4) |\n| R17 | `RefCell<Vec<usize>>` ⇒ `Vec<usize>`, `&self` ⇒ `&mut self`, `.borrow()` / `.borrow_mut()` dropped (`LineNumbers`, U23) | no RefCell support | exact as long as no two borrows overlap: each is a temporary that dies within its own statement, none is alive across the recursive call |")
+"| R16 | closure conversion (**built**, `//@closure <ordinal> self=a,b :: <fn header>`): the body of the n-th closure of the function (`iter::from_fn(move \\|\\| BODY)`, `.filter(\\|x\\| BODY)`, `.find(\\|x\\| BODY)`) is verified as a method of a struct holding the captured variables: same tokens, captured identifiers prefixed by `self.` (field types come from the side-car and are checked by rustc); the enclosing function becomes the struct's constructor | brings `find_words_ascii_space` (U13), `split_words` (U14), `Word::break_apart` (U15) and the three closures of `find_words_unicode_break_properties` (U20) into reach | that `from_fn`/`collect` call `next` until `None` and keep the items in order is std behaviour (A4) |\n| R18 | `for (c, &x) in S.iter().enumerate().filter(\\|(c, _)\\| c % 2 == 0) {B}` ⇒ `for h in 0..(S.len() + 1) / 2 { let c = 2 * h; let x = S[c]; B }` (`smawk_inner`, U24) | no spec for `Enumerate`/`Filter` | exact: the even indices below `len`, in order |\n| R19 | the local `macro_rules! m` of `online_column_minima` is expanded at its four uses (`assert!(c, msg…)` ⇒ `assert(c)`, to be *proved*); its definition — matched **literally** (`must=match`: any change to it leaves the unit undecided) — is dropped; the inline closure handed to `smawk_inner` is bound to a local first and gets parameter types (U24) | macros and untyped closures | expansion by hand, guarded by the literal match |\n| R17 | `RefCell<Vec<usize>>` ⇒ `Vec<usize>`, `&self` ⇒ `&mut self`, `.borrow()` / `.borrow_mut()` dropped (`LineNumbers`, U23) | no RefCell support | exact as long as no two borrows overlap: each is a temporary that dies within its own statement, none is alive across the recursive call |")
 props_text={}
 for l in open('/verif/properties.jsonl'):
     d=json.loads(l); props_text[d['id']]=d['statement']
@@ -37,7 +37,7 @@ seeded changes and which check catches which in §11.
   invariants, ghost state, lemmas. One contract set, several back ends, strongest first:
   1. **Verus** (unbounded, deductive) on function text **extracted mechanically from `/repo/src` on every run**,
      rewritten only by a fixed, logged list of token-level rules (§2.2), with contracts merged in from side-car files in
-     `/verif/contracts/`. 21 units, ≈ 80 extracted items (functions, closures, types), ≈ 440 verified functions and lemmas (Verus's "verified"
+     `/verif/contracts/`. 22 units, ≈ 80 extracted items (functions, closures, types), ≈ 440 verified functions and lemmas (Verus's "verified"
      count) carrying ≈ 890 contract clauses, 1–13 s per unit.
   2. **Kani, loop-free / full domain** (complete): `ch_width(c) <= c.len_utf8()` for every `char`, both feature sets (K1); the float-exactness facts C05's one-line argument uses, for every pair of `usize` operands (K3).
   3. **Kani, bounded**: `wrap_first_fit` with bit-precise IEEE-754 floats, 3 fragments (K2, thorough tier of C07) — labelled *bounded*.
@@ -72,6 +72,7 @@ seeded changes and which check catches which in §11.
   | U21 | `refill::refill` | `refill(x, o2) == fill(unfill(x).text minus final ending, o2 with unfill(x)'s indents) ++ ending` | C16, C04 |
   | U23 | `optimal_fit::LineNumbers::{new, get}` (RefCell memo, rewrite R17) | terminates, no panic, returns the number of back-pointer hops — for every table of smawk's shape | C03, C06, C04 |
   | U22 | `options.rs`: `Options::new`, `From<&Options>`, `From<usize>`, the eight setters; `LineEnding::as_str` | the by-reference conversion copies every option unchanged; documented defaults; each setter changes exactly its field; `as_str` is `"\\r\\n"` / `"\\n"` | C09, C08, C02, C04 |
+  | U24 | **dependency** `smawk` (version pinned by `Cargo.lock`, source read from the cargo registry): `online_column_minima`, `smawk_inner` | for every matrix callback (no monotonicity assumed): no panic (the `assert!`s of the `m!` macro, every index and subtraction), termination, the callback is called only on cells above the diagonal whose row is finished and with a well-shaped table, the result is a back-pointer table of length `size` with entry `k` pointing at a row `< k` — the contract U2 used to assume (A6) | C06, C03, C04 |
   | K1 | `core::ch_width` | `ch_width(c) <= c.len_utf8()` for all 1,112,064 scalar values (Kani, loop-free) | C10, C05, C04 |
   | K3 | `Word::width()` (`usize as f64`) and f64 `+`, `>` | `a + b < 2^53` implies `a as f64 + b as f64 == (a + b) as f64`; `a <= b` implies `!(a as f64 > b as f64)`; `0 as f64 == 0.0`; 64-bit `usize` — the A16 axioms of U17, all `usize` operands (Kani, loop-free, bit-precise) | C05 |
 
@@ -124,7 +125,7 @@ w("""### 2.3 Back ends
   `c: char = kani::any()`, loop-free, both feature sets, with a `should_panic` reachability twin — complete; quick tier of
   C04, C05, C10 (2–10 s). **K3** the three float facts that U17 states as axioms (A16), over symbolic `usize` operands, with the conversion taken from the real `Fragment` accessor and a `should_panic` twin that drops the 2^53 bound — complete; quick tier of C05 (≈ 80 s, almost all of it the 64-bit adder). **K2** `wrap_first_fit`, 3 fragments with quarter-integer widths < 4, two line widths < 8: U1's
   postconditions under real IEEE semantics — *bounded*, ≈ 10 min / 13 GB, thorough tier of C07. (The planned K4 for the
-  SMAWK call shape was replaced by the BEC contract `A6.smawk.call_shape` on the real `smawk` crate.)
+  SMAWK call shape was replaced first by the BEC contract `A6.smawk.call_shape` on the real `smawk` crate, then by the proof in U24.)
 * **BEC** (`/verif/bec`, `textwrap = { path = "/repo" }`, built offline with `--cfg fuzzing`, release profile with
   `overflow-checks` and `debug-assertions` on, default features and `--no-default-features`): contracts are Rust
   predicates returning `Result<bool, String>` (the bool counts non-trivial cases); enumerators produce *all* inputs of a
@@ -202,6 +203,7 @@ restatement and callee would show up there within scope.
 | U11 `vx_wrap_algorithm_wrap`: ordered partition | U17 `WrapAlgorithm::wrap` → U1, U2 (`partition`) | same four clauses (`runs_concat` and `concat_lines` are the same fold) |
 | U10 `vx_ascii_find_words_collect`, `vx_wrap_first_fit_1` | U13, U1 | same clauses, plus "the result is a function of the argument" (purity) |
 | U11 all five word-stage callees: `r == f(args)` with `f` uninterpreted (`fw_spec`, `sw_spec`, `bw_spec`, `wf_spec`, `wa_spec`) | U13/U20, U14, U6/U15, U6, U17/U1/U2 | not a clause of the providers: determinism of safe, state-free Rust (A17); for U13, U20, U16+U14, U15 and U1 the proved contracts determine the result uniquely; `wa_spec(..).len() >= 1` restates C06 |
+| U2 `vx_online_column_minima`: call shape, result shape, `2·size − 3 <= usize::MAX` | U24 `online_column_minima` (generic `T`; U2 uses `T = f64`) | same clauses: `call_ok` ≡ the antecedent of U2's `requires`, `table_shape` ≡ `minima_ok` |
 | U14 `vx_split_points_iter`: increasing char boundaries inside the word | U16 `split_points` | proved for the two built-in splitters; `Custom`: A15 |
 | U12 `wrap_shortcut_line` | U11 `wrap` (clause tagged C05 C09) | same predicate `wrap_shortcut_applies`, same conclusion, in bytes |
 | U15, U20 `vx_skip_ansi_ci` | U3 `skip_ansi_escape_sequence` (any iterator obeying the iterator laws) | instance at `Map<&mut CharIndices, _>` (A4: `map`/`by_ref` only project / borrow) |
@@ -366,6 +368,7 @@ w("""## 9. Departures from the original plan
   C08 and C09 from `other` to `proof` (functional postcondition of `wrap`, §2.9).
 * A8 (termination of `display_width`) and A16 (float exactness, by Kani K3) are discharged; two std facts about `str::split` are proved for a scan model instead of assumed.
 * The merge follows consistent renames of bound locals (§2.1); it did not in the plan.
+* The `smawk` dependency is verified (U24) instead of assumed (A6); the plan listed its contract under "assumed contracts on dependencies".
 
 ## 10. Corrections made to the machinery (false alarms on the unchanged tree)
 
